@@ -1279,3 +1279,197 @@ Proof.
   destruct (feed t s c) as [[s1 o1] st1]. simpl in H1.
   specialize (IH s1 Ht H1 Hc2). destruct (feeds t s1 chunks). exact IH.
 Qed.
+
+(* ------------------------------------------------------------------ netsim server *)
+Lemma payloads_netsim : forall msgs,
+  payloads (map netsim_message msgs) = concat (map (fun m => fst m :: snd m) msgs).
+Proof.
+  induction msgs as [|m msgs IH]; [reflexivity|].
+  unfold payloads in *. simpl. rewrite IH. reflexivity.
+Qed.
+
+(* a device that leases the netsim controller's sink is framed from the initial state *)
+Lemma netsim_new_client_fresh : forall t s pkts msgs, wf_table t = true ->
+  forallb (wf_packet t) pkts = true ->
+  concat (map (fun m => fst m :: snd m) msgs) = concat pkts ->
+  let '(s', outs) := netsim_connection t s msgs in
+  s' = reset /\ concat outs = map Packet pkts.
+Proof.
+  intros t s pkts msgs Ht H Hc. unfold netsim_connection.
+  apply (ws_new_client_fresh t s pkts (map netsim_message msgs) Ht H).
+  rewrite payloads_netsim. assumption.
+Qed.
+
+(* ------------------------------------------------------------------ splitter, any bytes *)
+Definition zeros (k : Z) : list Z := repeat 0 (Z.to_nat k).
+
+Lemma len_zeros : forall k, 0 <= k -> len (zeros k) = k.
+Proof. intros. unfold zeros, len. rewrite repeat_length. lia. Qed.
+
+Lemma bytes_ok_zeros : forall k, bytes_ok (zeros k) = true.
+Proof. intros. unfold zeros. induction (Z.to_nat k); simpl; auto. Qed.
+
+Section SplitterAny.
+Variables lo ls : Z.
+Hypothesis Hlo : 0 <= lo.
+Hypothesis Hls : 1 <= ls.
+
+Lemma wf_endpoint_intro : forall h b, bytes_ok h = true -> bytes_ok b = true ->
+  len h = lo + ls -> len b = le_decode (take ls (drop lo h)) ->
+  wf_endpoint_packet lo ls (h ++ b) = true.
+Proof.
+  intros h b Hh Hb Hlh Hlb. unfold wf_endpoint_packet. cbv zeta.
+  rewrite bytes_ok_app, Hh, Hb. cbn [andb].
+  pose proof (len_nonneg b).
+  apply andb_true_iff. split.
+  - apply Z.leb_le. rewrite len_app. lia.
+  - apply Z.eqb_eq. rewrite field_app by lia. rewrite len_app. lia.
+Qed.
+
+(* every byte string is a prefix of a stream of well-formed endpoint packets: a splitter
+   has no invalid input, whatever it has seen is the beginning of some packet *)
+Lemma endpoint_completion_n : forall n d, (length d <= n)%nat -> bytes_ok d = true ->
+  exists es rest, forallb (wf_endpoint_packet lo ls) es = true /\ concat es = d ++ rest.
+Proof.
+  induction n as [|n IH]; intros d Hn Hd.
+  - destruct d; [|simpl in Hn; lia]. exists [], []. auto.
+  - destruct (Z.eq_dec (len d) 0) as [Hz|Hnz].
+    { apply len_zero in Hz. subst d. exists [], []. auto. }
+    assert (Hd1 : 1 <= len d) by (pose proof (len_nonneg d); lia).
+    destruct (Z_lt_le_dec (len d) (lo + ls)) as [Hs|Hge].
+    + (* inside the header: complete it with zeros *)
+      set (h := d ++ zeros (lo + ls - len d)).
+      assert (Hh : bytes_ok h = true) by (unfold h; rewrite bytes_ok_app, Hd, bytes_ok_zeros; reflexivity).
+      assert (Hlh : len h = lo + ls) by (unfold h; rewrite len_app, len_zeros; lia).
+      set (L := le_decode (take ls (drop lo h))).
+      assert (HL : 0 <= L) by (apply le_decode_nonneg, bytes_ok_take, bytes_ok_drop; assumption).
+      exists [h ++ zeros L], (zeros (lo + ls - len d) ++ zeros L). split.
+      * cbn [forallb]. rewrite wf_endpoint_intro; auto using bytes_ok_zeros. rewrite len_zeros; auto.
+      * simpl. rewrite app_nil_r. unfold h. rewrite <- app_assoc. reflexivity.
+    + destruct (split_at (lo + ls) d) as (h & d2 & Hsplit & Hlh); [lia|].
+      assert (Hh : bytes_ok h = true /\ bytes_ok d2 = true).
+      { rewrite Hsplit, bytes_ok_app in Hd. apply andb_true_iff in Hd. assumption. }
+      destruct Hh as [Hh Hd2].
+      set (L := le_decode (take ls (drop lo h))).
+      assert (HL : 0 <= L) by (apply le_decode_nonneg, bytes_ok_take, bytes_ok_drop; assumption).
+      destruct (Z_lt_le_dec (len d2) L) as [Hs2|Hge2].
+      * (* inside the body *)
+        exists [h ++ d2 ++ zeros (L - len d2)], (zeros (L - len d2)). split.
+        -- cbn [forallb]. rewrite wf_endpoint_intro; auto.
+           ++ rewrite bytes_ok_app, Hd2, bytes_ok_zeros. reflexivity.
+           ++ rewrite len_app, len_zeros by lia. fold L. lia.
+        -- simpl. rewrite app_nil_r, Hsplit, <- !app_assoc. reflexivity.
+      * destruct (split_at L d2) as (b & d3 & Hsplit2 & Hlb); [lia|].
+        assert (Hb : bytes_ok b = true /\ bytes_ok d3 = true).
+        { rewrite Hsplit2, bytes_ok_app in Hd2. apply andb_true_iff in Hd2. assumption. }
+        destruct Hb as [Hb Hd3].
+        destruct (IH d3) as (es & rest & Hes & Hc); [|assumption|].
+        { assert (Hl : len d = lo + ls + L + len d3).
+          { rewrite Hsplit, Hsplit2, !len_app. lia. }
+          unfold len in Hl. glen. lia. }
+        exists ((h ++ b) :: es), rest. split.
+        -- cbn [forallb]. rewrite Hes, wf_endpoint_intro; auto.
+        -- simpl. rewrite Hc, Hsplit, Hsplit2, <- !app_assoc. reflexivity.
+Qed.
+
+Lemma endpoint_completion : forall d, bytes_ok d = true ->
+  exists es rest, forallb (wf_endpoint_packet lo ls) es = true /\ concat es = d ++ rest.
+Proof. intros d. apply (endpoint_completion_n (length d)). lia. Qed.
+
+(* complete description of the splitter after any chunks of a prefix of a packet stream *)
+Lemma split_feeds_char : forall es chunks rest,
+  forallb (wf_endpoint_packet lo ls) es = true -> concat es = concat chunks ++ rest ->
+  exists pkt' outs, split_feeds lo ls [] chunks = (pkt', outs) /\
+    concat outs = whole_within es (len (concat chunks)) /\
+    concat chunks = concat (concat outs) ++ pkt'.
+Proof.
+  intros es chunks rest Hes Hc.
+  destruct (split_feeds_inv lo ls Hlo Hls chunks [] rest es) as (pkt' & outs & es' & Hrun & Hsplit & Hinv).
+  { eapply sinv_start; eauto. }
+  exists pkt', outs. split; [assumption|].
+  destruct Hinv as (Hc' & Hwf' & Hhd).
+  assert (HE : forallb (wf_endpoint_packet lo ls) (concat outs) = true).
+  { rewrite Hsplit, forallb_app in Hes. apply andb_true_iff in Hes. tauto. }
+  assert (Hpre : concat chunks = concat (concat outs) ++ pkt').
+  { rewrite Hsplit, concat_app, <- Hc' in Hc. rewrite app_assoc in Hc.
+    destruct (app_eq_len (concat (concat outs) ++ pkt') (concat chunks) rest rest) as [E _]; auto.
+    apply (f_equal len) in Hc. rewrite !len_app in Hc. rewrite len_app. lia. }
+  split; [|assumption].
+  rewrite Hpre at 1. rewrite Hsplit. symmetry. eapply whole_within_done; [eassumption|].
+  destruct es' as [|e es']; [|assumption].
+  simpl in Hc'. apply app_eq_nil in Hc'. tauto.
+Qed.
+
+(* chunking irrelevance of the splitter on EVERY byte string: any chunking gives the
+   packets and the left-over buffer of a single call *)
+Lemma split_any_chunking : forall chunks, forallb bytes_ok chunks = true ->
+  let '(p1, o1, st1) := split_feed lo ls [] (concat chunks) in
+  st1 = Ok /\ fst (split_feeds lo ls [] chunks) = p1 /\
+  concat (snd (split_feeds lo ls [] chunks)) = o1.
+Proof.
+  intros chunks Hok.
+  assert (Hd : bytes_ok (concat chunks) = true).
+  { induction chunks as [|c chunks IH]; [reflexivity|]. simpl in Hok.
+    apply andb_true_iff in Hok. destruct Hok as [H1 H2].
+    simpl. rewrite bytes_ok_app, H1, (IH H2). reflexivity. }
+  destruct (endpoint_completion _ Hd) as (es & rest & Hes & Hc).
+  destruct (split_feeds_char es chunks rest Hes Hc) as (pa & oa & Hra & Hoa & Hpa).
+  assert (Hc1 : concat es = concat [concat chunks] ++ rest) by (simpl; rewrite app_nil_r; assumption).
+  destruct (split_feeds_char es [concat chunks] rest Hes Hc1) as (pb & ob & Hrb & Hob & Hpb).
+  cbn [split_feeds] in Hrb.
+  destruct (split_feed lo ls [] (concat chunks)) as [[p1 o1] st1] eqn:Hone.
+  assert (Hst : st1 = Ok).
+  { pose proof (split_feed_ok lo ls Hlo Hls es [] (concat chunks) rest) as Hk.
+    rewrite Hone in Hk. apply Hk. eapply sinv_start; eauto. }
+  inversion Hrb; subst pb ob. clear Hrb.
+  simpl in Hob, Hpb. rewrite !app_nil_r in *.
+  rewrite Hra. simpl. split; [assumption|].
+  assert (Ho : concat oa = o1) by congruence.
+  split; [|assumption].
+  rewrite Hpa in Hpb at 1. rewrite Ho in Hpb. apply app_inv_head in Hpb. assumption.
+Qed.
+
+End SplitterAny.
+
+Lemma usb_any_chunking : forall t spl ty lo ls chunks,
+  splitters_ok t spl = true -> In (ty, (lo, ls)) spl -> forallb bytes_ok chunks = true ->
+  let '(p1, o1, st1) := split_feed lo ls [] (concat chunks) in
+  st1 = Ok /\ fst (split_feeds lo ls [] chunks) = p1 /\
+  concat (snd (split_feeds lo ls [] chunks)) = o1.
+Proof.
+  intros t spl ty lo ls chunks Hspl Hin Hok.
+  destruct (splitter_entry _ _ _ _ _ Hspl Hin) as (i & _ & _ & _ & H3 & H4).
+  exact (split_any_chunking lo ls H3 H4 chunks Hok).
+Qed.
+
+(* ------------------------------------------------------------------ end to end *)
+Lemma concat_firstn_skipn : forall (chunks : list (list Z)) k,
+  concat chunks = concat (firstn k chunks) ++ concat (skipn k chunks).
+Proof. intros. rewrite <- concat_app, firstn_skipn. reflexivity. Qed.
+
+(* The property as one statement about the push parser, the two pull readers and the
+   server life cycle, for one list of packets and one chunking of their stream. *)
+Lemma all_stream_framers : forall t pkts chunks, wf_table t = true ->
+  forallb (wf_packet t) pkts = true -> concat chunks = concat pkts ->
+  (* push parser: exactly the packets, back in the initial state *)
+  (fst (feeds t reset chunks) = reset /\ concat (snd (feeds t reset chunks)) = map Packet pkts) /\
+  (* ... and after the first k chunks, for every k, exactly the packets wholly inside them *)
+  (forall k, concat (snd (feeds t reset (firstn k chunks))) =
+             map Packet (whole_within pkts (len (concat (firstn k chunks))))) /\
+  (* both pull readers over the same bytes: the same packets *)
+  (pr_all t (concat chunks) = (pkts, RAtEnd) /\ apr_all t (concat chunks) = (pkts, RTooShort)) /\
+  (* a server client sending these chunks, whatever state the shared parser is in *)
+  (forall s, let '(s', outs) := srv_run t s (Connect :: map Data chunks) in
+             s' = reset /\ concat outs = map Packet pkts) /\
+  (forall s, let '(s', outs) := ws_connection t s (map Some chunks) in
+             s' = reset /\ concat outs = map Packet pkts).
+Proof.
+  intros t pkts chunks Ht H Hc. split; [|split; [|split; [|split]]].
+  - apply chunking_irrelevant; assumption.
+  - intros k. apply (none_early t pkts (firstn k chunks) (concat (skipn k chunks)) Ht H).
+    rewrite <- Hc. apply concat_firstn_skipn.
+  - rewrite Hc. destruct (pull_stream t pkts Ht H) as (_ & H1 & H2). auto.
+  - intros s. apply new_client_fresh_state; assumption.
+  - intros s. apply ws_new_client_fresh; try assumption.
+    rewrite <- Hc. unfold payloads. rewrite map_map. cbn beta iota. rewrite map_id. reflexivity.
+Qed.
